@@ -20,6 +20,37 @@ func srcIf(s string) uint8 {
 	return ie.SrcInterfaceAccess
 }
 
+// permute reorders ies as a pure function of seed (0 = the canonical order). IEs of type keep
+// stay in their original relative order.
+func permute(ies []*ie.IE, seed uint32, keep uint16) []*ie.IE {
+	if seed == 0 || len(ies) < 2 {
+		return ies
+	}
+	out := append([]*ie.IE(nil), ies...)
+	x := uint64(seed)*6364136223846793005 + 1442695040888963407
+	for i := len(out) - 1; i > 0; i-- {
+		x = x*6364136223846793005 + 1442695040888963407
+		j := int((x >> 33) % uint64(i+1))
+		out[i], out[j] = out[j], out[i]
+	}
+	if keep != 0 {
+		var kept []*ie.IE
+		for _, e := range ies {
+			if e.Type == keep {
+				kept = append(kept, e)
+			}
+		}
+		k := 0
+		for i, e := range out {
+			if e.Type == keep {
+				out[i] = kept[k]
+				k++
+			}
+		}
+	}
+	return out
+}
+
 // PDIIEs builds the PDI members of a PDR.
 func PDIIEs(p PDR) []*ie.IE {
 	ies := []*ie.IE{ie.NewSourceInterface(srcIf(p.Src))}
@@ -47,7 +78,7 @@ func PDIIEs(p PDR) []*ie.IE {
 	if p.AppID != "" {
 		ies = append(ies, ie.NewApplicationID(p.AppID))
 	}
-	return ies
+	return permute(ies, p.Perm, 0)
 }
 
 func pdrIEs(p PDR) []*ie.IE {
@@ -63,7 +94,7 @@ func pdrIEs(p PDR) []*ie.IE {
 	for _, q := range p.QERs {
 		ies = append(ies, ie.NewQERID(q))
 	}
-	return ies
+	return permute(ies, p.Perm>>1, ie.QERID)
 }
 
 func CreatePDR(p PDR) *ie.IE { return ie.NewCreatePDR(pdrIEs(p)...) }
@@ -81,7 +112,7 @@ func fwdIEs(f FAR) []*ie.IE {
 	if f.HasOHC {
 		ies = append(ies, ie.NewOuterHeaderCreation(0x0100, f.TEID, f.Peer, "", 0, 0, 0))
 	}
-	return ies
+	return permute(ies, f.Perm, 0)
 }
 
 func CreateFAR(f FAR) *ie.IE {
@@ -91,9 +122,9 @@ func CreateFAR(f FAR) *ie.IE {
 		if f.EndMarker {
 			fw = append(fw, ie.NewPFCPSMReqFlags(0x02))
 		}
-		ies = append(ies, ie.NewForwardingParameters(fw...))
+		ies = append(ies, ie.NewForwardingParameters(permute(fw, f.Perm, 0)...))
 	}
-	return ie.NewCreateFAR(ies...)
+	return ie.NewCreateFAR(permute(ies, f.Perm>>1, 0)...)
 }
 
 func UpdateFAR(f FAR) *ie.IE {
@@ -107,9 +138,9 @@ func UpdateFAR(f FAR) *ie.IE {
 			}
 			fw = append(fw, ie.NewPFCPSMReqFlags(fl))
 		}
-		ies = append(ies, ie.NewUpdateForwardingParameters(fw...))
+		ies = append(ies, ie.NewUpdateForwardingParameters(permute(fw, f.Perm, 0)...))
 	}
-	return ie.NewUpdateFAR(ies...)
+	return ie.NewUpdateFAR(permute(ies, f.Perm>>1, 0)...)
 }
 
 func qerIEs(q QER) []*ie.IE {
@@ -120,7 +151,7 @@ func qerIEs(q QER) []*ie.IE {
 	if !q.NoGBR {
 		ies = append(ies, ie.NewGBR(q.GBRUL, q.GBRDL))
 	}
-	return ies
+	return permute(ies, q.Perm, 0)
 }
 
 func CreateQER(q QER) *ie.IE { return ie.NewCreateQER(qerIEs(q)...) }
